@@ -181,13 +181,13 @@ func (li *limInst) alphabet(level int, withZero, withHuge bool) []sample {
 	if level > 0 {
 		rtts = append(rtts, 1)
 	}
-	infl := []int{0, half, est}
+	infl := []int{0, half - 1, half, est} // half-1 = floor(est/2) for odd estimates: the app-limited boundary
 	if level < 0 {
 		// minimal alphabet (C15): what matters is the RTT; saturated or idle, with or without a drop
 		infl = []int{0, 2*est + 1}
 	}
 	if level > 0 {
-		infl = append(infl, half-1, math.MaxInt32)
+		infl = append(infl, math.MaxInt32)
 	} else if withHuge {
 		infl = append(infl, math.MaxInt32)
 	}
@@ -330,6 +330,13 @@ func limGrid(level int) []limCfg {
 		{algo: "gradient2", initial: 4, min: 1, max: 10, smoothing: 1.0, queue: "fixed2", longWin: 3},
 		{algo: "gradient2", initial: 6, min: 2, max: 10, smoothing: 0.2, queue: "sqrt4", longWin: 10},
 	}
+	// lookup-table edge: the default maximum (1000) equals the length of the pre-computed square-root
+	// and log10 tables, and the estimate saturates at exactly that value
+	g = append(g,
+		limCfg{algo: "gradient", initial: 990, min: 1, max: 1000, smoothing: 1.0, queue: "sqrt4", tol: 2.0, probe: -1},
+		limCfg{algo: "gradient2", initial: 998, min: 4, max: 1000, smoothing: 1.0, queue: "sqrt4", longWin: 3},
+		limCfg{algo: "vegas", initial: 998, max: 1000, smoothing: 1.0, probe: 30},
+	)
 	if level > 0 {
 		g = append(g,
 			limCfg{algo: "vegas", initial: 995, max: 1100, smoothing: 1.0, probe: 30},
